@@ -304,6 +304,16 @@ func RunConProp(plan *Plan, prop string) *RunResult {
 		if len(w.Ledger.Negative) > 0 {
 			c.fail("refcount-negative", "run", "under a schedule of concurrent readers an item's reference count dropped below zero: %s", w.Ledger.Negative[0])
 		}
+		// Not judged under schedules: ItemAddRef on an item whose count had
+		// reached zero.  A lookup reads the cached item pointer and takes its
+		// reference later; an eviction by another goroutine in between releases
+		// the node's reference first.  That window exists on the pinned tree
+		// (EvictSomeItems against a reader's GetItem) and cannot be closed
+		// without an atomic acquire in the callback API; C15 quantifies over
+		// histories, where the sequential engine does judge it.
+		if len(w.Ledger.Resurrected) > 0 {
+			w.probe("concurrent-addref-after-zero-observed")
+		}
 		for _, ev := range c.evs {
 			if ev.Panic != "" && c.viol == nil && strings.Contains(ev.Panic, "refcount") {
 				c.fail("panic", ev.Op.Kind, "task %s: %s panicked: %s", ev.Task, ev.Op.String(), ev.Panic)
